@@ -551,8 +551,44 @@ for k, sp in enumerate(ins):
     data[f"a{{k}}"] = rnd(cshp, seed=k)
     vals.append(data[f"a{{k}}"])
 spec = ",".join(ins) + "->" + o
-node = pt.einsum(spec, *ops)
-compare(node, data, np.einsum(spec, *vals), exact=False)
+from pyvc.replaylib import reproduced, not_reproduced
+try:
+    expect = np.einsum(spec, *vals)
+except ValueError as e_np:
+    expect = e_np
+try:
+    node = pt.einsum(spec, *ops)
+except ValueError as e_pt:
+    # symbolic lengths are equal only if equal for all parameter values: the
+    # rejection is wrong only if NumPy accepts for *every* valuation
+    import itertools
+    names = sorted(data_name for data_name in data if data_name.startswith("p_"))
+    for combo in itertools.product(range(4), repeat=len(names)):
+        val = dict(zip(names, combo))
+        made2 = []
+        def cdim(i):
+            v = val[names[i]]
+            form = i % 3
+            if form == 0 or not made2: dv = v
+            elif form == 1: dv = 2*v + 1
+            else: dv = v + made2[0]
+            made2.append(dv)
+            return dv
+        cn = {{ch: cdim(i) for i, ch in enumerate(sorted(set("".join(ins))))}}
+        cv = [np.zeros(tuple(1 if (k, ax) in unit else cn[ch]
+                             for ax, ch in enumerate(sp))) for k, sp in enumerate(ins)]
+        try:
+            np.einsum(spec, *cv)
+        except ValueError as e_np:
+            not_reproduced(f"pytato rejects ('{{e_pt}}'); NumPy rejects for the "
+                           f"valuation {{val}}: {{e_np}}")
+    reproduced(f"pt.einsum({{spec!r}}) rejects symbolic operand shapes "
+               f"{{[op.shape for op in ops]}} although NumPy accepts them for "
+               f"every parameter valuation in 0..3: {{e_pt}}")
+if isinstance(expect, ValueError):
+    reproduced(f"pt.einsum({{spec!r}}) accepts shapes {{[op.shape for op in ops]}} "
+               f"which NumPy rejects for {{data}}: {{expect}}")
+compare(node, data, expect, exact=False)
 """
 
 
